@@ -27,6 +27,7 @@ import json
 from typing import Any
 
 from flask import Blueprint, url_for
+import markupsafe
 
 from dashlive.utils.objects import flatten_iterable
 from dashlive.utils.date_time import (
@@ -200,7 +201,7 @@ def xmlSafe(value: str | None) -> str:
     """
     if value is None:
         return ""
-    return value.replace('&', '&amp;')
+    return markupsafe.escape(value)
 
 @custom_tags.app_template_filter()
 def sortedAttributes(value):
